@@ -237,8 +237,159 @@ def scalar_harness(k, mutual, alias, partners):
     return harness
 
 
+class Vec:
+    """array-like value: == and != give an object whose truth value is ambiguous (raises), as numpy arrays do"""
+
+    class _Mask:
+        def __bool__(self):
+            raise ValueError("the truth value of a mask is ambiguous")
+
+    def __eq__(self, o):
+        return Vec._Mask()
+
+    def __ne__(self, o):
+        return Vec._Mask()
+
+    __hash__ = object.__hash__
+
+
+def values_harness(kind, mutual):
+    """value kinds whose comparison is awkward: NaN (never equal to itself) and array-likes (comparison result has no truth
+    value).  'Both sides equal' means both sides hold the very object that was assigned."""
+    from traits.api import Float
+
+    def harness(ex):
+        errors = []
+        push_exception_handler(lambda *a: errors.append(a), reraise_exceptions=False)
+        try:
+            class A(HasTraits):
+                x = Float() if kind == "float" else Any()
+                xs = List(Float) if kind == "float" else List(Any)
+
+            a, b = A(), A()
+            a.sync_trait("x", b, mutual=mutual)
+            a.sync_trait("xs", b, mutual=mutual)
+            calls = {"a": 0, "b": 0}
+            a.on_trait_change(lambda: calls.__setitem__("a", calls["a"] + 1), "x")
+            b.on_trait_change(lambda: calls.__setitem__("b", calls["b"] + 1), "x")
+            mk = (lambda: float("nan")) if kind == "float" else Vec
+            v = mk()
+            for step in range(3):
+                op = ex.choice("op%d" % step, 5)
+                calls["a"] = calls["b"] = 0
+                raised = None
+                try:
+                    if op == 0:
+                        v = mk()
+                        a.x = v
+                        ex.check(a.x is v and b.x is v, "both sides hold the very object that was assigned to the source")
+                        ex.check(calls["a"] <= 1 and calls["b"] <= 1, "each side's handlers are notified at most once per change")
+                    elif op == 1:
+                        a.x = v                      # the same object again (NaN != NaN, yet nothing changed)
+                        if a.x is v and step > 0:
+                            pass
+                    elif op == 2:
+                        v = mk()
+                        b.x = v
+                        if mutual:
+                            ex.check(a.x is v and b.x is v, "both sides hold the very object that was assigned to the target (mutual link)")
+                    elif op == 3:
+                        w = mk()
+                        a.xs.append(w)
+                        ex.check(len(b.xs) == len(a.xs) and all(p is q for p, q in zip(a.xs, b.xs)),
+                                 "in-place list mutation: both lists hold the same objects")
+                    else:
+                        w = mk()
+                        a.xs = [w, w]
+                        ex.check(len(b.xs) == 2 and all(p is q for p, q in zip(a.xs, b.xs)),
+                                 "whole-list assignment: both lists hold the same objects")
+                except Exception as e:
+                    raised = type(e).__name__
+                ex.check(raised is None, "an assignment to a synchronised trait does not raise, whatever comparing its values does")
+                ex.check(errors == [], "no step raises into the notification exception handler")
+            return {"kind": kind}
+        finally:
+            pop_exception_handler()
+    return harness
+
+
+def unlink_inside_handler_harness(ex):
+    """removal 'at any point' includes the middle of a notification: a handler registered on the source BEFORE the link runs
+    before the link's own maintenance handler; when it takes the link down (or moves it to another partner) nothing of the
+    change being dispatched may reach the removed partner, nothing may raise, the new partner gets the change exactly once"""
+    errors = []
+    push_exception_handler(lambda *a: errors.append(a), reraise_exceptions=False)
+    try:
+        class Model(HasTraits):
+            items = List(Int)
+            n = Int
+
+        a, b, c = Model(), Model(), Model()
+        a.items = [1, 2]
+        variant = ex.choice("variant", 3)          # 0: scalar unlink, 1: list unlink, 2: list relink to a third object
+        mutual = ex.flag("mutual")
+        done = []
+        if variant == 0:
+            def unlink(new):
+                if not done:
+                    done.append(1)
+                    a.sync_trait("n", b, mutual=mutual, remove=True)
+            a.on_trait_change(unlink, "n")
+            seen = []
+            b.on_trait_change(lambda new: seen.append(new), "n")
+            a.sync_trait("n", b, mutual=mutual)
+            a.n = 5
+            ex.check(b.n == 0 and seen == [], "a link removed by an earlier handler of the same change propagates nothing")
+            a.n = 6
+            ex.check(b.n == 0, "... nor later")
+        else:
+            def on_items(event):
+                if not done:
+                    done.append(1)
+                    a.sync_trait("items", b, mutual=mutual, remove=True)
+                    if variant == 2:
+                        a.sync_trait("items", c, mutual=mutual)
+            a.on_trait_change(on_items, "items_items")
+            a.sync_trait("items", b, mutual=mutual)
+            ex.check(b.items == [1, 2], "linking copies the list")
+            op = ex.choice("op", 4)
+            raised = None
+            try:
+                if op == 0:
+                    a.items.append(3)
+                elif op == 1:
+                    a.items.insert(0, 3)
+                elif op == 2:
+                    del a.items[0]
+                else:
+                    a.items[0:1] = [7, 8]
+            except Exception as e:
+                raised = type(e).__name__
+            ex.check(raised is None, "mutating a list whose link an earlier handler removed does not raise")
+            ex.check(b.items == [1, 2], "a link removed by an earlier handler of the same change propagates nothing")
+            if variant == 2:
+                ex.check(c.items == a.items, "the new partner holds the list after the change - applied once, not twice")
+                a.items.append(9)
+                ex.check(c.items == a.items and b.items == [1, 2], "... and follows from then on, the old partner does not")
+            else:
+                a.items.append(9)
+                ex.check(b.items == [1, 2], "... nor later")
+        ex.check(errors == [], "nothing raises into the notification exception handler")
+        return {"variant": variant}
+    finally:
+        pop_exception_handler()
+
+
 def obligations(tier, build):
     obs = []
+    obs.append(Obligation("unlink-inside-handler", unlink_inside_handler_harness,
+                          bounds={"variants": ["scalar unlink", "list unlink", "list relink"], "list operations": 4, "mutual": "flag"},
+                          leverage="choice feasibility only"))
+    for kind in ("float", "vector"):
+        for mutual in (True, False):
+            obs.append(Obligation("values/%s/%s" % (kind, "mutual" if mutual else "oneway"), values_harness(kind, mutual),
+                                  bounds={"value kind": "NaN floats" if kind == "float" else "array-like (== has no truth value)",
+                                          "history length": 3}, leverage="choice feasibility only"))
     N = 2 if tier == "quick" else 4
     M = 2 if tier == "quick" else 3
     for mutual in (True, False):
